@@ -59,6 +59,8 @@ class Fn:
         self.proof = kw.pop("proof", True)           # False: contract evaluated concretely only (bounded stand-in)
         self.c_ensures = kw.pop("c_ensures", [])     # clauses evaluated only concretely (use spec functions without a logical definition)
         self.c_raises = kw.pop("c_raises", {})
+        self.monitor = kw.pop("monitor", None)       # dict(havoc=[locations], inv=[clauses], locks=[texts], calls=[callee texts]): interference model
+        self.ghost_after = kw.pop("ghost_after", {}) # source text of a statement -> ghost statements executed right after it
         self.s_ensures = kw.pop("s_ensures", [])     # clauses checked only symbolically (three-state clauses using after(...))
         self.abstract = kw.pop("abstract", False)    # contract only (callee not verified: listed as assumption)
         self.params = kw.pop("params", None)         # for abstract contracts: parameter names
